@@ -1992,6 +1992,14 @@ impl World {
                 raw.cells[s as usize] = owlchess::Cell::from_index(c as usize);
                 want.sq[s as usize] = c;
             }
+            Edit::MoveMan(a, b) => {
+                if a >= 64 || b >= 64 || a == b || want.sq[a as usize] == 0 {
+                    return Ok(Exec::Skipped);
+                }
+                want.sq[b as usize] = want.sq[a as usize];
+                want.sq[a as usize] = 0;
+                raw = crate::full::raw_of_pos(&want);
+            }
             Edit::Side => {
                 raw.side = raw.side.inv();
                 want.white = !want.white;
@@ -2035,7 +2043,7 @@ impl World {
             let k0 = key_of(&base);
             let k1 = key_of(&nb);
             let kept = k1 == want.key();
-            if kept && k1 != k0 {
+            if kept && k1 != k0 && !matches!(e, Edit::MoveMan(_, _)) {
                 // exactly one feature differs (the gate kept the edit and changed nothing else)
                 self.stats.hit("probe.single-feature-diff");
                 if nb.zobrist_hash() == base.zobrist_hash() {
